@@ -488,6 +488,13 @@ func (w *World) denomOf(in *Input) string {
 	case "NOBLESIDE":
 		// prefixed by the NOBLE-side identifier of this channel (the packet's destination end)
 		return "transfer/" + w.chanOf[in.Chan] + "/" + in.Base
+	case "SRCPORT":
+		// the counterparty port is otherSrcPort; the denom is prefixed with NOBLE's port name and the
+		// source channel: not a voucher of (source port, source channel), i.e. native to the sender
+		return "transfer/" + w.cpChanOf[in.Chan] + "/" + in.Base
+	case "RETPORT":
+		// the counterparty port is otherSrcPort and the denom is prefixed with it: returning native
+		return otherSrcPort + "/" + w.cpChanOf[in.Chan] + "/" + in.Base
 	case "OTHERPORT":
 		return "other/" + w.cpChanOf[in.Chan] + "/" + in.Base
 	case "MULTI":
